@@ -15,6 +15,7 @@ acyclic forest of `n` objects that walk is complete (distinct ancestors, pigeonh
 -/
 import MagpyVerif.Lemmas.Forest
 import MagpyVerif.Lemmas.ForestAcyclic
+import MagpyVerif.Lemmas.Copy
 namespace MagpyVerif.C11
 open MagpyVerif Forest
 
@@ -83,6 +84,92 @@ theorem unique_parent_listed_once (s : Forest) (h : s.Inv) (o c : Nat) (hp : s.p
   have := (h.parent_iff o c').mpr hm
   rw [hp] at this
   exact (Option.some.inj this).symm
+
+
+/-! ### `copy()` as an operation of the C11 state machine, and the `*_all` views -/
+
+/-- `obj.copy()` — of a leaf, of a collection with any nested subtree, owned or not — keeps the forest consistent
+and acyclic (proved in Lemmas/Copy.lean; the C18 file states the same under `copy_preserves_inv`) -/
+theorem copy_preserves_inv (s : Forest) (o : Nat) (hi : s.Inv) (ha : s.Acyclic) :
+    (s.copy o).Inv ∧ (s.copy o).Acyclic :=
+  ⟨copy_inv s hi ha o, copy_acyclic s hi ha o⟩
+
+/-- C11 for histories that contain copies: after any finite history of add / remove / parent= / children= /
+sources= / sensors= / collections= / `+` and `copy()` of any object (clones are ordinary objects afterwards) the
+forest is consistent and acyclic -/
+theorem inv_reachable_with_copy (kinds : List Kind) (ops : List COp) :
+    (ops.foldl (fun s op => (s.stepC op).1) (Forest.init kinds)).Inv ∧
+    (ops.foldl (fun s op => (s.stepC op).1) (Forest.init kinds)).Acyclic := by
+  suffices h : ∀ s : Forest, s.Inv → s.Acyclic →
+      (ops.foldl (fun s op => (s.stepC op).1) s).Inv ∧ (ops.foldl (fun s op => (s.stepC op).1) s).Acyclic from
+    h _ (init_inv kinds) (init_acyclic kinds)
+  induction ops with
+  | nil => intro s h1 h2; exact ⟨h1, h2⟩
+  | cons op ops ih =>
+    intro s h1 h2
+    exact ih _ (stepC_inv_acyclic s op h1 h2).1 (stepC_inv_acyclic s op h1 h2).2
+
+/-- the walk of `check_format_input_obj(self, allow)` (model `flatAll`: wanted children are appended, child
+collections are descended into right after) yields the pre-order list of the descendants filtered by the wanted
+types — for every fuel, in every state in which only collections have children -/
+theorem flatAll_eq_filter_subtree (s : Forest) (hoc : ∀ c, s.kind c ≠ .coll → s.children c = [])
+    (want : Kind → Bool) : ∀ (k c : Nat),
+    s.flatAll want k c = ((s.subtree (k + 1) c).tail).filter (fun o => want (s.kind o)) := by
+  intro k
+  induction k with
+  | zero => intro c; simp [flatAll, subtree]
+  | succ k ih =>
+    intro c
+    have hstep : ∀ o, (if want (s.kind o) then [o] else []) ++ (if s.kind o = .coll then s.flatAll want k o else []) =
+        (s.subtree (k + 1) o).filter (fun o => want (s.kind o)) := by
+      intro o
+      have ht : (s.subtree (k + 1) o) = o :: (s.subtree (k + 1) o).tail := by simp [subtree]
+      rw [ht, List.filter_cons]
+      by_cases hk : s.kind o = .coll
+      · rw [if_pos hk, ih o]
+        by_cases hw : want (s.kind o) = true <;> simp [hw]
+      · rw [if_neg hk]
+        have : (s.subtree (k + 1) o).tail = [] := by simp [subtree, hoc o hk]
+        rw [this]
+        by_cases hw : want (s.kind o) = true <;> simp [hw]
+    show (s.children c).flatMap _ = _
+    simp only [subtree, List.tail_cons, List.filter_flatMap]
+    exact List.flatMap_congr (fun o _ => hstep o) |>.trans rfl
+
+/-- the state of the examples below -/
+def demoC11 : Forest :=
+  [COp.base (.add 1 [3] false), COp.base (.add 0 [2, 1] false)].foldl (fun s op => (s.stepC op).1)
+    (Forest.init [.coll, .coll, .src, .sens])
+
+/-- the four `*_all` views of a collection in ANY state reachable by add / remove / the setters / `+` / copy():
+`children_all` is the pre-order list of all descendants (each exactly once, none of them the collection itself),
+`sources_all` / `sensors_all` / `collections_all` are its order-preserving filters by type -/
+theorem all_views_are_preorder_filters (kinds : List Kind) (ops : List COp) (c : Nat) :
+    let s := ops.foldl (fun s op => (s.stepC op).1) (Forest.init kinds)
+    let desc := (s.cnodes c).tail
+    s.flatAll (fun _ => true) s.n c = desc ∧
+    s.flatAll (fun k => k = .src) s.n c = desc.filter (fun o => s.kind o = .src) ∧
+    s.flatAll (fun k => k = .sens) s.n c = desc.filter (fun o => s.kind o = .sens) ∧
+    s.flatAll (fun k => k = .coll) s.n c = desc.filter (fun o => s.kind o = .coll) ∧
+    (c :: desc).Nodup ∧ (∀ x, x ∈ c :: desc ↔ Reach s x c) := by
+  intro s desc
+  obtain ⟨hi, ha⟩ := inv_reachable_with_copy kinds ops
+  have h := fun w => flatAll_eq_filter_subtree s hi.only_colls w s.n c
+  have hc : s.cnodes c = c :: desc := by
+    obtain ⟨rest, hr⟩ := cnodes_eq_cons s c
+    show s.cnodes c = c :: (s.cnodes c).tail
+    rw [hr]; rfl
+  refine ⟨?_, ?_, ?_, ?_, ?_, ?_⟩
+  · rw [h]; simp [desc, cnodes]
+  · rw [h]; simp [desc, cnodes]
+  · rw [h]; simp [desc, cnodes]
+  · rw [h]; simp [desc, cnodes]
+  · rw [← hc]; exact cnodes_nodup s hi ha c
+  · intro x; rw [← hc]; exact mem_cnodes_iff s hi ha c x
+
+-- non-vacuity: collection 0 = [source 2, collection 1 = [sensor 3]]: `children_all` of 0 is [2, 1, 3], its sensors_all [3]
+example : (demoC11.flatAll (fun _ => true) demoC11.n 0 = [2, 1, 3]) ∧ demoC11.flatAll (fun k => k = .sens) demoC11.n 0 = [3] ∧
+    demoC11.flatAll (fun k => k = .coll) demoC11.n 0 = [1] := by decide
 
 -- non-vacuity: a reachable non-trivial state (collection 0 holding a source and collection 1 holding a sensor)
 example : ((Forest.init [.coll, .coll, .src, .sens]).step (.add 1 [3] false)).1.children 1 = [3] := by decide
